@@ -65,6 +65,15 @@ func toBytes(l intList) []byte {
 	return out
 }
 
+const traceVarintCfg = `INIT TraceInit
+NEXT TraceNext
+CONSTANTS
+  ByteAlphabet = {}
+  MaxLen = 0
+INVARIANTS RealEncodingMatches
+CHECK_DEADLOCK FALSE
+`
+
 var varintTrailers = [][]byte{nil, {0}, {0xff, 0x80}, {0x80}, {0x7f, 0x01, 0x02}}
 
 // floatOfWord: the float the documented transform assigns to a transformed word x
@@ -405,14 +414,7 @@ func (c *Ctx) runVarintTrace(n int) {
 	}
 	w.Flush()
 	f.Close()
-	cfg := `INIT TraceInit
-NEXT TraceNext
-CONSTANTS
-  ByteAlphabet = {}
-  MaxLen = 0
-INVARIANTS RealEncodingMatches
-CHECK_DEADLOCK FALSE
-`
+	cfg := traceVarintCfg
 	res := c.runTLC(TLCOpts{Module: "Trace_Varint", Cfg: cfg, Purpose: "trace of real encodings", Workers: 1, Env: []string{"VERIF_TRACE=" + path}, Timeout: 30 * time.Minute,
 		Constants: fmt.Sprintf("%d real encodings", lines)})
 	if res.Violated != "" {
